@@ -307,8 +307,10 @@ class _NetSocket:
             raise OSError("scripted failure after delivery")
 
     def send(self, data):
-        self.sendall(data)
-        return len(data)
+        """a real socket's send() may take only part of the data: at most 512 bytes per call here"""
+        part = bytes(data[:512])
+        self.sendall(part)
+        return len(part)
 
     def close(self):
         pass
@@ -451,8 +453,11 @@ class Net:
 
     def _deliver(self, src, dst, data, sender_ok=True):
         snd, rcv = self.nodes[src], self.nodes[dst]
-        m = self.decode(snd.crypto, data)
-        rec = dict(kind="msg", src=src, dst=dst, t=self.clock.cur, type=m["type"], flags=m["flags"],
+        try:
+            m = self.decode(snd.crypto, data)
+        except Exception:       # noqa  not a whole message (e.g. a sender that hands over only part of it)
+            m = dict(type=-1, flags=0, c=[], h=[], u=[])
+        rec = dict(kind="msg" if m["type"] >= 0 else "partial", src=src, dst=dst, t=self.clock.cur, type=m["type"], flags=m["flags"],
                    c=m["c"], h=m["h"], u=m["u"], seen=snd.snap_seen if m["type"] == RESYNC else len(snd.emitted),
                    dec_t=snd.iter_now, src_gen=snd.gen, dst_gen=rcv.gen, err=None, sender_ok=sender_ok)
         self.wire.append(rec)
